@@ -45,6 +45,11 @@ def agglomerative_cluster(data: np.ndarray, n_clusters: Union[int, None] = None,
 
     """
 
+    # scikit-learn refuses (ValueError) to cluster fewer than 2 points. That case is trivial: a
+    # lone point forms its own cluster (and no point, no cluster).
+    if len(data) < 2:
+        return len(data), np.zeros(len(data), dtype=int)
+
     # Set things up
     agg_clu = AgglomerativeClustering(linkage=linkage, n_clusters=n_clusters, metric=metric,
                                       distance_threshold=distance_threshold).fit(data)
